@@ -6,7 +6,8 @@ wt, sid, prop, result, needs, what = sys.argv[1:7]
 checks = sys.argv[7:]
 d = os.path.join(os.path.dirname(os.path.dirname(os.path.abspath(__file__))), 'seeded', sid)
 os.makedirs(d, exist_ok=True)
-patch = subprocess.check_output(['git', '-C', wt, 'diff', '--', 'src']).decode()
+saved = glob.glob(os.path.join(wt, 'patch_*.diff'))
+patch = open(saved[0]).read() if saved else subprocess.check_output(['git', '-C', wt, 'diff', '--', 'src']).decode()
 open(os.path.join(d, 'patch.diff'), 'w').write(patch)
 for demo in glob.glob(os.path.join(wt, 'demo_*.py')):
     shutil.copy(demo, os.path.join(d, os.path.basename(demo)))
